@@ -313,7 +313,7 @@ func (r *lruRunner) Exec(line string) string {
 }
 
 func (lruComp) Gen(rng *rand.Rand, tier string) [][]string {
-	nh, steps := 200, 60
+	nh, steps := 800, 60
 	if tier == "thorough" {
 		nh, steps = 5000, 100
 	}
